@@ -45,7 +45,7 @@ Proof. exact recover_terminates. Qed.
 
 (* Simulation of reduceAll by the main loop: if reduceAll, walking its state stack stack2 over the real stack,
    answers "the terminal can be shifted", then from every loop configuration whose stack is the real stack with
-   entries for stack2 on top, the loop performs at most `fuel` iterations, all of them reductions that leave the
+   entries for stack2 on top, the loop performs at most `fuel` iterations, all of them plain reductions (reduces_for) that leave the
    input, the recovery counter and the error list untouched, and arrives in the end state or in a state where
    it shifts that terminal. *)
 Theorem C19_reduceAll_predicts_the_loop :
@@ -56,6 +56,7 @@ Theorem C19_reduceAll_predicts_the_loop :
   vstack (xc_stack x) stack stack2 -> stack2 <> [] -> hd 0 stack2 = state -> xc_state x = state ->
   t_sym (next_tok (rp_eoi_off p) (xc_input x)) = symbol ->
   exists k x', (k <= f)%nat /\ rsteps p eh k (mkRC x r errs l) (mkRC x' r errs l) /\ xc_input x' = xc_input x /\
+    reduces_for p k x = true /\
     (xc_state x' = rp_end p \/ exists q, m_act (rp_m p) (xc_state x') symbol [] = Shift q).
 Proof. exact reduce_all_sim. Qed.
 
@@ -67,7 +68,7 @@ Theorem C19_progress_after_recovery :
   forall c0 stack events c1, handle_error p eh c0 stack events = RContinue c1 ->
   is_suffix (xc_input (rc_x c1)) (xc_input (rc_x c0)) /\
   exists k c2, (k <= S (length stack) * 4 + 64)%nat /\ rsteps p eh k c1 c2 /\
-    xc_input (rc_x c2) = xc_input (rc_x c1) /\ rc_errors c2 = rc_errors c1 /\
+    xc_input (rc_x c2) = xc_input (rc_x c1) /\ rc_errors c2 = rc_errors c1 /\ reduces_for p k (rc_x c1) = true /\
     (xc_state (rc_x c2) = rp_end p \/
      exists q c3, m_act (rp_m p) (xc_state (rc_x c2)) (t_sym (next_tok (rp_eoi_off p) (xc_input (rc_x c1)))) [] = Shift q /\
        rstep p eh c2 = RContinue c3 /\ xc_state (rc_x c3) = q /\ rc_errors c3 = rc_errors c1 /\
@@ -95,6 +96,15 @@ Theorem C19_recovering_parse_terminates :
   forall c, exists f, fst (rrun_loop f p eh c) <> RFuel.
 Proof. exact rrun_terminates. Qed.
 
+(* An explicit fuel bound, linear in the remaining input: if every reduction sequence of the plain loop has at most
+   R steps (reductions_bounded R), then (|input| + 1) * (2 R + 3) + R + 1 iterations suffice for EVERY
+   configuration and handler: at most |input| + 1 shifts, at most one recovery episode per shift, at most R
+   reductions before each of them. *)
+Theorem C19_recovering_parse_fuel_bound :
+  forall p eh, lalr1 p -> shift_ok_sound p -> 0 <= rp_end p -> forall R, eoi_ends p -> reductions_bounded p R ->
+  forall c, fst (rrun_loop ((length (xc_input (rc_x c)) + 1) * (2 * R + 3) + R + 1) p eh c) <> RFuel.
+Proof. exact rrun_fuel_linear. Qed.
+
 Theorem C19_more_fuel_changes_nothing :
   forall p eh f c o c', rrun_loop f p eh c = (o, c') -> o <> RFuel -> forall g, rrun_loop (f + g) p eh c = (o, c').
 Proof. exact rrun_fuel_mono. Qed.
@@ -107,13 +117,14 @@ Theorem C19_conditions_hold_for_optimized_tables :
   forall p o terms rl rs, rp_m p = opt_machine o terms rl rs -> rp_shift_ok p = shift_ok_opt o -> lalr1 p /\ shift_ok_sound p.
 Proof. exact conditions_opt. Qed.
 
-(* NOT proved (partial): a fuel bound linear in stack size + remaining input for the whole run. The recovery part is
-   bounded (at most |input| + 1 episodes, each followed by at most 4 * (|stack| + 1) + 64 reductions and a shift);
-   what is missing is a bound on the reduction sequences of the PLAIN loop on arbitrary (also invalid) input,
-   which C01 does not provide (it proves acceptance of sentences with some fuel and absence of crashes), so
-   termination is stated relative to reductions_terminate. Also not proved: absence of the index-out-of-range
-   crashes modelled as RCrash (reduceAll walking below the stack, a goto of -1 inside reduceAll). Both are
-   monitored: generated parsers run under a time limit with recover(), and the model reports RCrash/RFuel. *)
+(* NOT proved (partial): the hypotheses about the reduction sequences of the PLAIN loop (reductions_terminate,
+   reductions_bounded R) from the validator conditions of C01 -- C01 proves acceptance of sentences with some fuel
+   and absence of crashes, but no bound on reduction sequences on arbitrary (also invalid) input; for real grammars
+   the bound depends on the stack depth, so reductions_bounded with a uniform R is a strong assumption, while
+   reductions_terminate is what any terminating plain parser satisfies. Also not proved: absence of the
+   index-out-of-range crashes modelled as RCrash (reduceAll walking below the stack, a goto of -1 inside
+   reduceAll). Both are monitored: generated parsers run under a time limit with recover(), and the model reports
+   RCrash/RFuel. *)
 
 (* non-vacuity: a two-state machine with an 'error' transition; the input "x y" has a syntax error at x, recovery
    skips x, pushes the error entry, and the loop then shifts y into the end state *)
@@ -123,7 +134,7 @@ Definition mx : machine :=
 Definition px : rparams := mkRP mx [] true 2 2 1 [3] (fun s a => (s =? 1) && (a =? 3)) (fun _ _ => false).
 
 Example C19_example :
-  lalr1 px /\ shift_ok_sound px /\ 0 <= rp_end px /\ eoi_ends px /\ reductions_terminate px /\
+  lalr1 px /\ shift_ok_sound px /\ 0 <= rp_end px /\ eoi_ends px /\ reductions_terminate px /\ reductions_bounded px 0 /\
   (let '(o, c) := rrun 10 px (fun _ => true) 0 [mkTok 2 0 1; mkTok 3 1 2] in
    o = RAccept /\ rc_errors c = [(0, 1)] /\ xc_input (rc_x c) = [] /\ map x_sym (xc_stack (rc_x c)) = [3; 1; 0]).
 Proof.
@@ -133,6 +144,8 @@ Proof.
   { intros s q H. simpl in H. rewrite andb_false_r in H. discriminate. }
   split.
   { intros x. exists 1%nat. simpl. unfold plain_reduce. simpl. destruct (_ && _); reflexivity. }
+  split.
+  { intros x. simpl. unfold plain_reduce. simpl. destruct (_ && _); reflexivity. }
   vm_compute. repeat split; reflexivity.
 Qed.
 
@@ -143,6 +156,7 @@ Print Assumptions C19_reduceAll_predicts_the_loop.
 Print Assumptions C19_progress_after_recovery.
 Print Assumptions C19_every_recovery_consumes_a_token_or_ends_the_parse.
 Print Assumptions C19_recovering_parse_terminates.
+Print Assumptions C19_recovering_parse_fuel_bound.
 Print Assumptions C19_more_fuel_changes_nothing.
 Print Assumptions C19_conditions_hold_for_default_tables.
 Print Assumptions C19_conditions_hold_for_optimized_tables.
